@@ -159,7 +159,7 @@ func workerMain(rc *runCtx) {
 		dl, _ := strconv.ParseInt(f[1], 10, 64)
 		maxStates, fb := 400_000, 2
 		if rc.Tier == "thorough" {
-			maxStates, fb = 3_000_000, 3
+			maxStates, fb = 6_000_000, 3
 		}
 		if sched.RaceBuild {
 			// under the race detector an execution costs ~10x more; a race is a property of the
